@@ -40,6 +40,10 @@ def run(c):
     m = c.tlc_model("KrylovCtl", constants=consts)
     if m["violated"]:
         c.note("KrylovCtl violated at model level: %s (replay on the real code decides)" % m["violated"])
+    # the pinned tree's BiCGStab check_after (res = 2 eps): Provenance fails in the model; the replay
+    # below decides on the real code (proposed_fixes/C01-bicgstab-check-after.md)
+    pinned = c.tlc_model("KrylovCtl", cfg="KrylovCtlPinned.cfg", constants=consts, coverage=False)
+    c.note("KrylovCtlPinned (check_after as in the pinned tree): %s" % (pinned["violated"] or "no violation"))
     paths = c.tlc_model("KrylovCtl", cfg="KrylovCtlPaths.cfg", constants=consts, coverage=False)
     Sm = {}
     for ln in paths["output"].splitlines():
@@ -110,6 +114,10 @@ def run(c):
             f.write('{"e":"End"}\n')
         res, recs = validate(merged, label, mode, chunk=200)
         rets = [r for r in recs if r.get("k") == "ret"]
+        nexc = collections.Counter(r["exc"][:48] for r in rets if "exc" in r)
+        nnan = sum(1 for r in rets if r.get("nan"))
+        if nexc or nnan:
+            c.note("%s: %d solves ended in a C++ exception %s, %d returned NaN/Inf" % (label, sum(nexc.values()), dict(nexc), nnan))
         if mode == "solve":
             combos = set((r["solver"], r["coars"], r["relax"]) for r in rets)
             c.note("families: %d solves, %d distinct (solver, coarsening, relaxation) triples, families %s, %d left-preconditioned"
